@@ -15,7 +15,13 @@ list of calls (of those objects, and of the metric under test itself on other ar
 judged call.  The statement is about every metric object for every pair of tables, so the value may depend neither on
 which other metric objects exist nor on what was evaluated earlier.  Tables may carry extra columns whose names are
 those of the loop columns the implementation adds to its private copy (CDR1A .. CDR2B, CDR1X, CDR2X) with arbitrary
-content: CDR1 / CDR2 are those of the row's V allele whatever such columns hold."""
+content: CDR1 / CDR2 are those of the row's V allele whatever such columns hold.
+
+A table may be LARGE (round 3): `data` then holds a few distinct rows and `take` the order in which they are repeated
+(13 .. 1300 rows in the quick tier, .. 2600 in the thorough tier).  The oracle is asked for the distance table D of the
+distinct rows only (specification and model, cdist); the expected matrix is D[take_A[i]][take_B[j]] and the expected
+condensed vector holds D[take[i]][take[j]] at position cidx n i j (row-major, i < j) - theorems C09_row_local (the
+entry depends on the two rows' contents only) and C09_pdist_condensed (position cidx of the vector holds entry (i, j))."""
 import copy, itertools
 import numpy as np
 import pandas as pd
@@ -35,6 +41,8 @@ CLASSES = {
     'CdrLevenshtein': (0, 0, ('alpha_weight', 'beta_weight') + CDRW),
 }
 W5 = ('alpha_weight', 'beta_weight') + CDRW
+EDIT_MODES = ['weighted', 'uniform', 'mixed']          # constructors with explicit insertion / deletion / substitution weights
+ALL_MODES = ['weighted', 'weighted', 'uniform', 'mixed', 'unit', 'default']
 SMALL_PRIMES = [2, 3, 5, 7]                 # insertion / deletion / substitution (the model's DP runs on unary nat)
 PRIMES = [11, 13, 17, 19, 23, 29, 31]       # chain and loop weights
 INDEX_KINDS = ['default', 'shifted', 'permuted', 'duplicated', 'string']
@@ -72,6 +80,8 @@ def make_frame(fj):
     """fj: dict(columns, index, data{col: list}, dtypes{col: name}) -> DataFrame"""
     idx = fj['index']
     df = pd.DataFrame({c: pd.Series(list(fj['data'][c]), dtype=object) for c in fj['columns']}, columns=list(fj['columns']))
+    if 'take' in fj:
+        df = df.iloc[list(fj['take'])].reset_index(drop=True)
     if idx != 'default':
         df.index = pd.Index(list(idx))
     for c, dt in fj.get('dtypes', {}).items():
@@ -126,11 +136,51 @@ def make_obj(oj):
     raise ValueError(k)
 
 
+def nrows(fj):
+    if 'take' in fj:
+        return len(fj['take'])
+    return len(fj['index']) if fj['index'] != 'default' else (len(next(iter(fj['data'].values()))) if fj['data'] else 0)
+
+
 def wire_rows(fj):
-    n = len(fj['index']) if fj['index'] != 'default' else (len(next(iter(fj['data'].values()))) if fj['data'] else 0)
+    n = nrows(fj)
     idx = list(range(n)) if fj['index'] == 'default' else fj['index']
-    get = lambda c, i: fj['data'][c][i] if c in fj['data'] else ''
+    take = fj.get('take', range(n))
+    get = lambda c, i: fj['data'][c][take[i]] if c in fj['data'] else ''
     return [(str(idx[i]), get('TRAV', i), get('CDR3A', i), get('TRBV', i), get('CDR3B', i)) for i in range(n)]
+
+
+def is_big(case):
+    return any('take' in case[k] for k in ('A', 'B') if k in case)
+
+
+def distinct_of(fj):
+    """the table of the distinct rows of a large table (what the oracle is asked about)"""
+    if 'take' not in fj:
+        return fj
+    return dict(columns=fj['columns'], index='default', data=fj['data'], dtypes={})
+
+
+def materialize(fj):
+    """a large-table description written out row by row"""
+    if 'take' not in fj:
+        return fj
+    return dict(columns=fj['columns'], index=fj['index'], data={c: [v[t] for t in fj['take']] for c, v in fj['data'].items()}, dtypes=fj.get('dtypes', {}))
+
+
+def take_of(fj):
+    return np.asarray(fj['take'] if 'take' in fj else range(nrows(fj)), dtype=np.int64)
+
+
+def expand(case, D):
+    """expected result of a case with large tables from the distance table D of the distinct rows (anchors' x comparisons' distinct rows)"""
+    D = np.asarray(D, dtype=np.int64)
+    ta = take_of(case['A'])
+    if case['kind'] == 'cdist':
+        tb = take_of(case['B'])
+        return D[np.ix_(ta, tb)]          # a large table has >= 1 distinct row, so D is k_A x k_B with k >= 1
+    i, j = np.triu_indices(len(ta), 1)
+    return D[ta[i], ta[j]]
 
 
 def wire_obj(oj):
@@ -194,6 +244,8 @@ def mat_equal(val, exp, shape):
         return False
     if arr.shape != tuple(shape) or arr.dtype == object:
         return False
+    if isinstance(exp, np.ndarray):         # large table: expected values expanded from the distinct rows' distance table
+        return exp.shape == arr.shape and bool(np.array_equal(arr, exp))
     got = arr.tolist()
     if len(shape) == 1:
         return len(got) == len(exp) and all(x == e for x, e in zip(got, exp))
@@ -202,6 +254,15 @@ def mat_equal(val, exp, shape):
 
 def first_diff(val, exp):
     try:
+        if isinstance(exp, np.ndarray):
+            arr = np.asarray(val)
+            if arr.shape != exp.shape:
+                return None
+            bad = np.argwhere(arr != exp)
+            if not len(bad):
+                return None
+            pos = tuple(int(x) for x in bad[0])
+            return (pos[0], pos[1] if len(pos) > 1 else None, arr[pos].item(), int(exp[pos]))
         got = np.asarray(val).tolist()
         for i, (r, er) in enumerate(zip(got, exp)):
             if isinstance(er, list):
@@ -218,6 +279,14 @@ def first_diff(val, exp):
 # ------------------------------------------------------------------ one case
 def requests_for(case):
     cs, ls, w3, w5 = cfg_of(case)
+    if is_big(case):
+        # large tables: the distance table of the distinct rows (anchors' x comparisons'; instances' x instances'), expanded by judge
+        A = distinct_of(case['A'])
+        B = distinct_of(case['B']) if case['kind'] == 'cdist' else A
+        g = genes_for(A, B)
+        fa, fb = wire_obj(A), wire_obj(B)
+        return [('api_c09_cdist', [cs, ls, w3, w5, g, fa[0], fa[1], fa[2], fb[0], fb[1], fb[2]]),
+                ('api_c09_spec_cdist', [cs, ls, w3, w5, g, fa[2], fb[2]])]
     if case['kind'] == 'cdist':
         A, B = case['A'], case['B']
         g = genes_for(A, B)
@@ -307,20 +376,28 @@ def judge(ctx, case, outs, tbl):
     complete = all(set(['TRAV', 'CDR3A', 'TRBV', 'CDR3B']) <= set(oj['columns']) for oj in [case['A']] + ([case['B']] if case['kind'] == 'cdist' else []))
     if tag == 2 and not complete:
         return problems        # a table lacking a column the metric reads: outside the statement, not judged
-    n = len(wire_rows(case['A']))
-    shape = (n, len(wire_rows(case['B']))) if case['kind'] == 'cdist' else (n * (n - 1) // 2,)
+    n = nrows(case['A'])
+    shape = (n, nrows(case['B'])) if case['kind'] == 'cdist' else (n * (n - 1) // 2,)
+    if is_big(case):
+        spec = expand(case, spec)
+        if tag == 0:
+            mval = expand(case, mval)
     if res[0] != 'ok':
         kind = 'property' if complete else 'correspondence'
         problems.append((kind, '%s raised %s on TCR tables (%s)' % (call, res[1], describe_objs(case))))
         return problems
     if not mat_equal(res[1], spec, shape):
         d = first_diff(res[1], spec)
+        where = ''
+        if d and d[1] is not None:
+            where = ' at [%s, %s]: %s vs %s' % d
+        elif d:
+            where = ' at [%s]%s: %s vs %s' % (d[0], pair_of(n, d[0]) if case['kind'] == 'pdist' else '', d[2], d[3])
         problems.append(('property', '%s differs from the stated weighted sum%s; shape %s expected %s; got %s expected %s (%s)' %
-                         (call, (' at [%s, %s]: %s vs %s' % d) if d and d[1] is not None else (' at [%s]: %s vs %s' % (d[0], d[2], d[3]) if d else ''),
-                          getattr(np.asarray(res[1]), 'shape', None), shape, short(np.asarray(res[1]).tolist()), short(spec), describe_objs(case))))
+                         (call, where, getattr(np.asarray(res[1]), 'shape', None), shape, short_arr(res[1], d), short_arr(spec, d), describe_objs(case))))
     if tag != 0 or not mat_equal(res[1], mval, shape):
         problems.append(('correspondence', '%s: the model built from today\'s source facts gives %s, the implementation %s' %
-                         (call, short((tag, mval)), short(np.asarray(res[1]).tolist()))))
+                         (call, short((tag, short_arr(mval))), short_arr(res[1]))))
     return problems
 
 
@@ -347,6 +424,30 @@ def short(x, n=300):
     return s if len(s) <= n else s[:n] + '...'
 
 
+def short_arr(x, d=None):
+    """a result / expected array for a message; a big one is shown around the first differing position"""
+    try:
+        arr = np.asarray(x)
+        if arr.size <= 400 or arr.dtype == object:
+            return short(arr.tolist())
+        if arr.ndim == 1:
+            k = max(0, (d[0] if d else 0) - 3)
+            return '[.. %d entries; from position %d: %s ..]' % (arr.size, k, arr[k:k + 12].tolist())
+        i, j = (d[0], max(0, (d[1] or 0) - 3)) if d else (0, 0)
+        return '[.. %s entries; row %d from column %d: %s ..]' % (list(arr.shape), i, j, arr[i, j:j + 12].tolist())
+    except Exception:
+        return short(x)
+
+
+def pair_of(n, k):
+    """condensed position k of an n-row table = the pair (i, j), i < j, row-major"""
+    i = 0
+    while i < n - 1 and k >= n - 1 - i:
+        k -= n - 1 - i
+        i += 1
+    return ' = pair (row %d, row %d) of %d rows' % (i, i + 1 + k, n)
+
+
 def describe_objs(case):
     out = []
     for k in ('A', 'B'):
@@ -356,14 +457,22 @@ def describe_objs(case):
                 out.append('%s=<%s>' % (k, oj['nontable']))
             else:
                 own = {c: oj['data'][c] for c in oj['columns'] if c in INTERNAL_COLS}
+                if 'take' in oj:
+                    out.append('%s=frame(columns=%s, index=%s, %d rows = the %d distinct rows %s repeated in the order %s%s)' %
+                               (k, oj['columns'], short(oj['index'], 60), nrows(oj), len(set(oj['take'])), short([r[1:] for r in wire_rows(distinct_of(oj))], 500),
+                                short(list(oj['take']), 80), (', caller\'s own loop-named columns %s' % short(own, 300)) if own else ''))
+                    continue
                 out.append('%s=frame(columns=%s, index=%s, rows=%s%s)' % (k, oj['columns'], short(oj['index'], 60), short([r[1:] for r in wire_rows(oj)], 400),
                                                                         (', caller\'s own loop-named columns %s' % short(own, 300)) if own else ''))
     return '; '.join(out)
 
 
 def sub_frame(fj, rows):
-    n = len(wire_rows(fj))
+    n = nrows(fj)
     idx = list(range(n)) if fj['index'] == 'default' else fj['index']
+    if 'take' in fj:
+        sub = dict(fj, index=[idx[i] for i in rows], take=[fj['take'][i] for i in rows])
+        return sub if len(rows) > 12 else materialize(sub)
     return dict(columns=fj['columns'], index=[idx[i] for i in rows], data={c: [v[i] for i in rows] for c, v in fj['data'].items()},
                 dtypes=fj.get('dtypes', {}))
 
@@ -406,10 +515,14 @@ def shrink(ctx, case, kind):
             if any(k == kind for k, _ in probs):
                 case = c
                 break
-    na = len(wire_rows(case['A']))
+    if is_big(case):
+        case = shrink_size(ctx, case, kind)
+        if is_big(case):
+            return case             # needs a table of that size: no row pair fails on its own
+    na = nrows(case['A'])
     cands = []
     if case['kind'] == 'cdist':
-        nb = len(wire_rows(case['B']))
+        nb = nrows(case['B'])
         for i in range(na):
             for j in range(nb):
                 cands.append(dict(case, A=sub_frame(case['A'], [i]), B=sub_frame(case['B'], [j])))
@@ -423,6 +536,27 @@ def shrink(ctx, case, kind):
     for c, probs, _ in run_cases(ctx, cands):
         if any(k == kind for k, _ in probs):
             return c
+    return case
+
+
+def shrink_size(ctx, case, kind):
+    """large tables: per table the shortest leading part that still fails the same way (bisection; <= 12 evaluations per table)"""
+    fails = lambda c: any(k == kind for k, _ in run_cases(ctx, [c])[0][1])
+    for key in [k for k in ('A', 'B') if k in case and 'take' in case[k]]:
+        lo, hi = 0, nrows(case[key])            # the leading hi rows fail; the leading lo rows are not known to
+        for c in (2, 12):
+            if c < hi and fails(dict(case, **{key: sub_frame(case[key], range(c))})):
+                hi = c
+                break
+            lo = c
+        while hi - lo > 1 and hi > 12:
+            mid = (lo + hi) // 2
+            if fails(dict(case, **{key: sub_frame(case[key], range(mid))})):
+                hi = mid
+            else:
+                lo = mid
+        if hi < nrows(case[key]):
+            case = dict(case, **{key: sub_frame(case[key], range(hi))})
     return case
 
 
@@ -498,6 +632,51 @@ def gen_frame(rng, av, bv, special, n, kind, pool, plain=False):
     return dict(columns=cols, index=gen_index(rng, kind, n), data={c: data[c] for c in cols}, dtypes=dtypes)
 
 
+def gen_big_frame(rng, av, bv, special, n, kind, pool, plain=False):
+    """a table of n rows made of 4-8 distinct rows in random order (each at least once)"""
+    k = min(n, rng.randint(4, 8))
+    fj = gen_frame(rng, av, bv, special, k, 'default', pool, plain=plain)
+    take = list(range(k)) + [rng.randrange(k) for _ in range(n - k)]
+    rng.shuffle(take)
+    return dict(fj, index=gen_index(rng, kind, n), take=take)
+
+
+SIZE_BANDS = [(13, 100), (101, 400), (401, 1000), (1001, 1300), (1301, 2600)]
+ROUND_SIZES = [16, 32, 50, 64, 100, 128, 200, 250, 256, 500, 512, 1000, 1024, 2000, 2048]
+
+
+def gen_size(rng, band):
+    """a row count of the band; half of the time next to a round number of the band (block / chunk sizes of an implementation are round numbers)"""
+    lo, hi = SIZE_BANDS[band]
+    near = [r + d for r in ROUND_SIZES for d in (-1, 0, 1, 2, 3) if lo <= r + d <= hi]
+    return rng.choice(near) if near and rng.random() < 0.5 else rng.randint(lo, hi)
+
+
+def ncolumns(cls):
+    cs, ls, _ = CLASSES[cls]
+    return (2 if cs == 0 else 1) * (3 if ls == 0 else 1)
+
+
+def gen_sized_case(rng, av, bv, special, kind, na, nb, budget):
+    """one case on large table(s).  `budget` bounds the number of per-pair Python-level scorer calls (entries x loop columns) a case with
+    explicit edit weights may need (cost control only): such a case takes a class that fits, else the case keeps the unit / default scorer."""
+    pool = (['C' + ''.join(rng.choice(gens.AA) for _ in range(rng.randint(6, 16))) + 'F' for _ in range(3)],
+            ['CASS' + ''.join(rng.choice(gens.AA) for _ in range(rng.randint(4, 14))) + 'F' for _ in range(3)])
+    entries = na * nb if kind == 'cdist' else na * na       # pdist evaluates the square
+    mode = rng.choice(ALL_MODES)
+    classes = list(CLASSES)
+    if mode in EDIT_MODES:
+        classes = [c for c in CLASSES if entries * ncolumns(c) <= budget]
+        if not classes:
+            mode, classes = rng.choice(['unit', 'default']), list(CLASSES)
+    cls = rng.choice(classes)
+    mk = lambda n: (gen_big_frame if n > 12 else gen_frame)(rng, av, bv, special, n, rng.choice(INDEX_KINDS), pool, plain=rng.random() < 0.6)
+    case = dict(kind=kind, cls=cls, A=mk(na), **gen_weights(rng, cls, mode))
+    if kind == 'cdist':
+        case['B'] = mk(nb)
+    return case
+
+
 def junk_column(rng, name, data, n, av, bv):
     """content of a caller's column that merely has the NAME of an internal loop column"""
     r = rng.random()
@@ -537,7 +716,7 @@ def add_loop_named_columns(rng, data, cols, n, av, bv, names=None):
 def gen_ctor(rng, case):
     """another metric object to keep alive next to the one under test: same class with other weights, or another class"""
     cls = case['cls'] if rng.random() < 0.5 else rng.choice(list(CLASSES))
-    return dict(cls=cls, **gen_weights(rng, cls, rng.choice(['weighted', 'weighted', 'unit', 'default'])))
+    return dict(cls=cls, **gen_weights(rng, cls, rng.choice(ALL_MODES)))
 
 
 def add_alive(rng, case, p=0.7):
@@ -556,8 +735,17 @@ def add_alive(rng, case, p=0.7):
 
 
 def gen_weights(rng, cls, mode):
-    """constructor arguments; mode 'unit' keeps insertion=deletion=substitution=1 (the C scorer path)"""
+    """constructor arguments; mode 'unit' keeps insertion=deletion=substitution=1 (the C scorer path), 'weighted' = three distinct primes,
+    'uniform' = one common edit weight > 1 (w, w, w), 'mixed' = each of the three drawn independently from {1, 2, 3, 5, 7}, not all 1
+    (so one or two of them may be 1, and two or all three may coincide)"""
     ws = rng.sample(SMALL_PRIMES, 3) + rng.sample(PRIMES, 5)
+    if mode == 'uniform':
+        ws[:3] = [rng.choice(SMALL_PRIMES)] * 3
+    elif mode == 'mixed':
+        while True:
+            ws[:3] = [rng.choice([1] + SMALL_PRIMES) for _ in range(3)]
+            if ws[:3] != [1, 1, 1]:
+                break
     kwargs, pos = {}, []
     if mode == 'default':
         return dict(pos=[], kwargs={})
@@ -586,13 +774,17 @@ def run(ctx):
     rng = ctx.rng
     ctx.rule = ('six classes x tables of 0..12 rows (V alleles drawn from the %s human TRAV/TRBV alleles tidytcells has sequence data '
                 'for, the alleles without a CDR2 over-represented; CDR3 = mutated clones, random strings, empty, non-amino-acid / '
-                'non-BMP text) x constructor weights that are pairwise distinct primes (or the unit scorer path, or all defaults) x '
+                'non-BMP text) x constructor weights that are pairwise distinct primes (or the unit scorer path, or all defaults; or one common edit '
+                'weight w > 1 for insertion = deletion = substitution; or each edit weight drawn independently from {1, 2, 3, 5, 7}, not all 1) x '
                 'index kinds {default, shifted, permuted, duplicated, string} chosen independently for anchors and comparisons x '
                 'extra / stale / shuffled columns, category / string dtypes; plus the full product class x anchor index x comparison '
                 'index x scorer path on one fixed table pair; plus non-table objects in every argument position. Tables may carry the '
                 'caller\'s own columns named CDR1A / CDR2A / CDR1B / CDR2B / CDR1X / CDR2X (any subset, any content); 50-70 %% of the cases '
                 'construct 1-4 further metric objects (same class with other weights, or another class) before / after the one under test, '
-                'keep them alive, and evaluate them or the metric under test on other argument combinations before the judged call. non-trivial := '
+                'keep them alive, and evaluate them or the metric under test on other argument combinations before the judged call; plus large tables '
+                '(13-100, 101-400, 401-1000, 1001-1300 rows; thorough also 1301-2600; half of the sizes next to a round number) for calc_pdist_vector '
+                'and for calc_cdist_matrix (large x small, small x large, large x large), built from 4-8 distinct rows repeated in random order, '
+                'expected values expanded from the distinct rows\' distance table by C09_row_local + C09_pdist_condensed. non-trivial := '
                 'both tables have >= 2 rows, some entry is non-zero, and the weights in scope are pairwise distinct primes')
     av, bv = allele_pools()
     ctx.rule = ctx.rule % (len(av) + len(bv))
@@ -622,16 +814,19 @@ def run(ctx):
     fixedA['data']['TRAV'][0] = no_c2[0]
     kinds_a = INDEX_KINDS
     kinds_b = INDEX_KINDS if not ctx.quick else ['default', 'permuted', 'duplicated']
+    nprod = 0
     for cls in CLASSES:
         for ka in kinds_a:
             for kb in kinds_b:
-                for mode in ('unit', 'weighted'):
+                nprod += 1
+                for mode in ('unit', 'weighted', 'uniform', 'mixed') if not ctx.quick else ('unit', 'weighted', ('uniform', 'mixed')[nprod % 2]):
                     A = dict(fixedA, index=gen_index(rng, ka, 3))
                     B = dict(fixedB, index=gen_index(rng, kb, 4))
                     w = gen_weights(rng, cls, mode)
                     cases.append(add_alive(rng, dict(kind='cdist', cls=cls, A=A, B=B, tag=('product', ka, kb, mode), **w), p=0.5))
                 A = dict(fixedA, index=gen_index(rng, ka, 3))
-                cases.append(add_alive(rng, dict(kind='pdist', cls=cls, A=A, tag=('product', ka, '-', 'weighted'), **gen_weights(rng, cls, 'weighted')), p=0.5))
+                mode = rng.choice(EDIT_MODES)
+                cases.append(add_alive(rng, dict(kind='pdist', cls=cls, A=A, tag=('product', ka, '-', mode), **gen_weights(rng, cls, mode)), p=0.5))
     # (a2) class x {cdist anchors, cdist comparisons, cdist both, pdist} x which loop-named columns the caller's table carries
     for cls in CLASSES:
         for names in (LOOP_COLS, ['CDR1A', 'CDR2A'], ['CDR1B', 'CDR2B'], ['CDR1A', 'CDR1B'], ['CDR2A', 'CDR2B'], INTERNAL_COLS):
@@ -655,7 +850,7 @@ def run(ctx):
         na = rng.choice([0, 1, 2]) if rng.random() < 0.08 else rng.randint(3, 12)
         nb = rng.choice([0, 1, 2]) if rng.random() < 0.08 else rng.randint(3, 12)
         ka, kb = rng.choice(INDEX_KINDS), rng.choice(INDEX_KINDS)
-        mode = rng.choice(['weighted', 'weighted', 'unit', 'default'])
+        mode = rng.choice(ALL_MODES)
         A = gen_frame(rng, av, bv, special, na, ka, pool)
         B = gen_frame(rng, av, bv, special, nb, kb, pool)
         w = gen_weights(rng, cls, mode)
@@ -668,11 +863,41 @@ def run(ctx):
             keep = ['CDR3A', 'TRAV'] if c1.startswith('Alpha') else ['TRBV', 'CDR3B']
             A1 = dict(A, columns=keep, data={c: A['data'][c] for c in keep}, dtypes={})
             cases.append(add_alive(rng, dict(kind='cdist', cls=c1, A=A1, B=B, tag=('one-chain table', ka, kb, mode), **gen_weights(rng, c1, mode))))
+    # (f) large tables (13 .. 1300 rows; thorough .. 2600): a few distinct rows repeated in random order; expected values expanded from the
+    #     distinct rows' distance table (C09_row_local + C09_pdist_condensed).  The value of a pair may not depend on how many rows the table has.
+    budget = 400000 if ctx.quick else 4000000
+    top = 3 if ctx.quick else 4
+    sized = []
+    for rnd in range(1 if ctx.quick else 6):
+        for cls_i in range(len(CLASSES)):
+            n = gen_size(rng, 3 if (ctx.quick or cls_i % 2) else 4)       # more than 1000 rows, every class, cheap scorer
+            c = gen_sized_case(rng, av, bv, special, 'pdist', n, 0, 0)
+            c['cls'] = list(CLASSES)[cls_i]
+            c.update(gen_weights(rng, c['cls'], rng.choice(['unit', 'default'])))
+            sized.append(c)
+        for band in range(top + 1):
+            for _ in range(2):
+                sized.append(gen_sized_case(rng, av, bv, special, 'pdist', gen_size(rng, band), 0, budget))
+        for _ in range(1 if ctx.quick else 2):                            # explicit edit weights on more than 1000 rows
+            c = gen_sized_case(rng, av, bv, special, 'pdist', rng.randint(1001, 1040 if ctx.quick else 1100), 0, 0)
+            c['cls'] = rng.choice(['AlphaCdr3Levenshtein', 'BetaCdr3Levenshtein'] if ctx.quick else list(CLASSES)[:3])
+            c.update(gen_weights(rng, c['cls'], rng.choice(EDIT_MODES)))
+            sized.append(c)
+        for band in range(top + 1):
+            small = rng.randint(1, 12)
+            big, big2 = gen_size(rng, band), gen_size(rng, rng.randint(0, band))
+            sized.append(gen_sized_case(rng, av, bv, special, 'cdist', big, small, budget))
+            sized.append(gen_sized_case(rng, av, bv, special, 'cdist', small, big, budget))
+            sized.append(gen_sized_case(rng, av, bv, special, 'cdist', big, big2, budget))
+            sized.append(gen_sized_case(rng, av, bv, special, 'cdist', big2, big, budget))
+    for c in sized:
+        c['tag'] = ('sized', 'any', 'any', 'unit' if cfg_of(c)[2] == (1, 1, 1) else 'explicit edit weights')
+    cases += sized
     # (c) inputs that are not TCR tables, in every argument position
     good = gen_frame(rng, av, bv, special, 3, 'permuted', pool, plain=True)
     for bad in nontable_objects(rng):
         for cls in (list(CLASSES) if not ctx.quick else rng.sample(list(CLASSES), 3)):
-            w = gen_weights(rng, cls, rng.choice(['weighted', 'default']))
+            w = gen_weights(rng, cls, rng.choice(['weighted', 'uniform', 'default']))
             cases.append(dict(kind='cdist', cls=cls, A=bad, B=good, tag=('non-table', 'anchors'), **w))
             cases.append(dict(kind='cdist', cls=cls, A=good, B=bad, tag=('non-table', 'comparisons'), **w))
             cases.append(dict(kind='cdist', cls=cls, A=bad, B=bad, tag=('non-table', 'both'), **w))
@@ -699,8 +924,17 @@ def run(ctx):
         if tag[0] in ('product', 'random', 'one-chain table'):
             ctx.count('anchor index=' + tag[1])
             ctx.count('scorer=' + tag[3])
-            na = len(wire_rows(case['A']))
+            na = nrows(case['A'])
             ctx.count('rows=' + ('0-2' if na <= 2 else '3-12'))
+            if len(set(w3)) < 3 and w3 != (1, 1, 1):
+                ctx.count('edit weights not pairwise distinct: ' + ('all three equal (> 1)' if len(set(w3)) == 1 else 'two equal'))
+        if tag[0] == 'sized':
+            ctx.count('scorer=' + tag[3])
+            for k in ('A', 'B'):
+                if k in case:
+                    nk = nrows(case[k])
+                    ctx.count('large-table case: rows of a table=' + ('<= 12' if nk <= 12 else '13-100' if nk <= 100 else '101-400' if nk <= 400 else
+                                                                      '401-1000' if nk <= 1000 else '1001-1300' if nk <= 1300 else '1301-2600'))
         nt = None
         if tag[0] != 'non-table' and len(outs) > 1 and not isinstance(outs[1], Exception):
             spec = outs[1]
@@ -741,6 +975,8 @@ def additivity(ctx, rng, av, bv, special):
         A = gen_frame(rng, av, bv, special, rng.randint(2, 6), rng.choice(INDEX_KINDS), pool)
         B = gen_frame(rng, av, bv, special, rng.randint(2, 6), rng.choice(INDEX_KINDS), pool)
         ws = rng.sample(SMALL_PRIMES, 3) + rng.sample(PRIMES, 5)
+        if t % 4 == 1:
+            ws[:3] = [ws[0]] * 3            # one common edit weight > 1
         w3 = dict(insertion_weight=ws[0], deletion_weight=ws[1], substitution_weight=ws[2]) if t % 3 else {}
         cd = dict(cdr1_weight=ws[5], cdr2_weight=ws[6], cdr3_weight=ws[7])
         for paired, alpha, beta, extra in ((tm.Cdr3Levenshtein, tm.AlphaCdr3Levenshtein, tm.BetaCdr3Levenshtein, {}),
